@@ -246,8 +246,17 @@ def gc_requests(run):
     return out
 
 
+def _is_frame_predicate(call):
+    """A crate-local `fn(&Frame) -> bool`: the frame-level spelling of the expiry predicate (TTL guard inside the callee)."""
+    hb = call.body.crate.bodies.get(call.fn) if hasattr(call.body, "crate") else None
+    if hb is None or hb.argc < 1:
+        return False
+    return "xs::store::Frame" in hb.local_tystr(1) and hb.local_tystr(0) == "bool"
+
+
 def expiry_tests(body):
-    """[(bb, call, true_edges, false_edges)] switches whose condition is a crate-local bool predicate over (&x.id, ttl-of-x)."""
+    """[(bb, call, true_edges, false_edges)] switches whose condition is a crate-local bool predicate over (&x.id, ttl-of-x), or
+    over the frame itself (`is_time_expired(&frame)`, the TTL::Time guard then lives in the predicate)."""
     out = []
     for bb, si in body.switches():
         if si["kind"] != "bool":
@@ -255,7 +264,32 @@ def expiry_tests(body):
         cond = si["cond"]
         if cond[0] == "call" and cond[1].local and len(cond[2]) >= 2 and q.last_field(cond[2][0]) == "id":
             out.append((bb, cond, q.edge_triples(body, bb, lambda m: m is True), q.edge_triples(body, bb, lambda m: m is False)))
+        elif cond[0] == "call" and cond[1].local and len(cond[2]) == 1 and _is_frame_predicate(cond[1]):
+            out.append((bb, cond, q.edge_triples(body, bb, lambda m: m is True), q.edge_triples(body, bb, lambda m: m is False)))
     return out
+
+
+def expiry_test_subject(run, cond):
+    """(id_base, ttl_base) - which frame's id and which frame's TTL::Time payload an expiry test is about.  For the frame-level
+    predicate both are the argument frame, provided the callee itself pairs `frame.id` with `frame.ttl`'s Time payload."""
+    if len(cond[2]) >= 2:
+        return frame_base_of(cond[2][0]), ttl_time_payload_base(cond[2][1])
+    hb = run.facts.body(cond[1].fn)
+    base = fmt(strip(cond[2][0]))
+    x = strip(cond[2][0])
+    while x[0] in ("ref", "deref"):
+        x = x[1]
+    base = fmt(x)
+    if hb is None:
+        return None, None
+    run.touch(hb)
+    uses_id = any(y[0] == "call" and y[1].fn == "scru128::id::Scru128Id::timestamp" and q.last_field(y[2][0]) == "id" and any(z[0] == "arg" and z[1] == 1 for z in walk(y[2][0]))
+                  for bb2, st2, st in hb.stmt_points() for y in ()) or any(
+        c.fn == "scru128::id::Scru128Id::timestamp" and q.last_field(c.arg(0)) == "id" and any(z[0] == "arg" and z[1] == 1 for z in walk(c.arg(0))) for c in hb.calls() if c.bb in hb.live_blocks()) or any(
+        c.local and c.args and q.last_field(c.arg(0)) == "id" and any(z[0] == "arg" and z[1] == 1 for z in walk(c.arg(0))) for c in hb.calls() if c.bb in hb.live_blocks())
+    uses_ttl = any(si["kind"] == "variant" and (si.get("adt") or "").endswith("ttl::TTL") and any(z[0] == "arg" and z[1] == 1 for z in walk(si["cond"])) and q.has_field(si["cond"], "ttl")
+                   for bb2, si in hb.switches())
+    return (base if uses_id else None), (base if uses_ttl else None)
 
 
 def frame_base_of(e):
